@@ -199,8 +199,13 @@ func (c Config) effective() Config {
 // ---- fake balancer.ClientConn --------------------------------------------------------------
 
 type fsc struct {
-	id       int
+	id int
+	// addrs names the address list the connection works with. Like gRPC's subchannel the fake KEEPS the slice it is
+	// given (held, no copy) and ignores an update that equals what it holds at that moment (grpc-go 1.56.3,
+	// addrConn.updateAddrs): a balancer that later writes into a slice it has handed out changes what the
+	// connection "holds" without the connection ever moving to the new addresses.
 	addrs    string
+	held     []resolver.Address
 	connects int
 	foreign  bool // never created by the balancer
 }
@@ -227,8 +232,15 @@ func astr(a []resolver.Address) string {
 	return strings.Join(s, ",")
 }
 
-func (s *fsc) UpdateAddresses(a []resolver.Address) { s.addrs = astr(a) }
-func (s *fsc) Connect()                             { s.connects++ }
+func (s *fsc) UpdateAddresses(a []resolver.Address) { s.setAddrs(a) }
+
+func (s *fsc) setAddrs(a []resolver.Address) {
+	if s.held != nil && astr(s.held) == astr(a) {
+		return // "unchanged" for gRPC
+	}
+	s.held, s.addrs = a, astr(a)
+}
+func (s *fsc) Connect() { s.connects++ }
 func (s *fsc) GetOrBuildProducer(balancer.ProducerBuilder) (balancer.Producer, func()) {
 	return nil, func() {}
 }
@@ -253,7 +265,7 @@ func (c *fcc) NewSubConn(a []resolver.Address, o balancer.NewSubConnOptions) (ba
 		c.refused++
 		return nil, errors.New("fake ClientConn: NewSubConn refused")
 	}
-	sc := &fsc{id: len(c.all), addrs: astr(a)}
+	sc := &fsc{id: len(c.all), addrs: astr(a), held: a}
 	c.all = append(c.all, sc)
 	c.created = append(c.created, sc)
 	return sc, nil
@@ -267,7 +279,7 @@ func (c *fcc) RemoveSubConn(sc balancer.SubConn) {
 func (c *fcc) UpdateAddresses(sc balancer.SubConn, a []resolver.Address) {
 	c.updAddr++
 	if f, ok := sc.(*fsc); ok {
-		f.addrs = astr(a)
+		f.setAddrs(a)
 	}
 }
 func (c *fcc) UpdateState(s balancer.State)          { c.pubs = append(c.pubs, s) }
